@@ -1,4 +1,4 @@
-CONSTANTS MaxView = 2 ByzBudget = 3 Blocks <- cBlocks Hdr <- cHdr Dev = {}
+CONSTANTS MaxView = 2 ByzBudget = 3 Blocks <- cBlocks Hdr <- cHdr Dev = {} Ablate = {}
 INIT Init
 NEXT Next
 VIEW View
